@@ -23,9 +23,9 @@ func TestCheck(t *testing.T) {
 		r.Finish()
 		return
 	}
-	n := r.Env.N(600, 50000)
+	n := r.Env.N(2000, 50000)
 	if os.Getenv("VERIF_RACE_SUBSET") != "" {
-		n = r.Env.N(200, 5000) // the -race part repeats a prefix of the same case list
+		n = r.Env.N(400, 5000) // the -race part repeats a prefix of the same case list
 	}
 	for i := 0; i < n; i++ {
 		if !r.Mine(i) {
@@ -53,7 +53,7 @@ func TestCheck(t *testing.T) {
 }
 
 func pexPart(t *testing.T, r *vk.Run) {
-	n := r.Env.N(400, 30000)
+	n := r.Env.N(1000, 30000)
 	for i := 0; i < n; i++ {
 		if !r.Mine(i) {
 			continue
